@@ -256,6 +256,23 @@ func (g *engine) step() {
 		}
 		g.settle(d, sa, op, isIdentityClass(sa))
 		b = a
+	case k < 92 && g.mode != "C08":
+		op = "BatchNormalize"
+		m := 1 + rng.Intn(5)
+		idx := make([]int, m)
+		ptrs := make([]*banderwagon.Element, m)
+		for i := range idx {
+			idx[i] = rng.Intn(n)
+			ptrs[i] = &g.e[idx[i]]
+		}
+		g.log(fmt.Sprintf("BatchNormalize(slots %v)", idx))
+		if err := banderwagon.BatchNormalize(ptrs); err != nil {
+			g.c.Count("batchnormalize_errors_on_valid_elements", 1)
+		}
+		for _, j := range idx {
+			g.settle(j, g.sh[j], op, isIdentityClass(g.sh[j]))
+		}
+		d, a, b = idx[0], idx[0], idx[0]
 	case k < 94:
 		op = "Normalize"
 		g.log(fmt.Sprintf("e%d.Normalize()", a))
